@@ -30,7 +30,13 @@ def main():
         import traceback
         traceback.print_exc()
         chk.violation(f"check machinery failed: {e!r}", [f"machinery-error {e!r}"], nofail=True)
-    return chk.finish(level=getattr(mod, "LEVEL", "proof"))
+    rc = chk.finish(level=getattr(mod, "LEVEL", "proof"))
+    try:
+        if core._PRIVATE_DRIVER:
+            os.remove(core._PRIVATE_DRIVER)
+    except OSError:
+        pass
+    return rc
 
 
 if __name__ == "__main__":
